@@ -269,6 +269,17 @@ func TestVerifP384CombinedMult(t *testing.T) {
 			}
 		}
 	}
+	// Q = (m/n) G for small m and n: the variable-base accumulator (nQ, in
+	// projective coordinates) meets the fixed-base table entry mG that is
+	// added to it - the P = Q branch of the MIXED addition - after only a few
+	// steps; and Q = -(m/n) G for the P = -Q branch
+	for mv := int64(1); mv <= 10; mv++ {
+		for nv := int64(1); nv <= 10; nv++ {
+			frac := new(big.Int).Mul(bi(mv), new(big.Int).ModInverse(bi(nv), N))
+			cases = append(cases, triple{mkQ(frac), bi(mv), bi(nv), "mG=nQ"})
+			cases = append(cases, triple{mkQ(new(big.Int).Neg(frac)), bi(mv), bi(nv), "mG=-nQ"})
+		}
+	}
 	nm1 := new(big.Int).Sub(N, bi(1))
 	np1 := new(big.Int).Add(N, bi(1))
 	cases = append(cases,
